@@ -306,7 +306,8 @@ def mstep_oracle(case, aff, q):
                 mean[idx][k] = mu
                 cov[idx][k] = c
         out['mean'] = mean
-        out['covariance'] = cov
+        out['covariance'] = cov if o.get('fixed_covariance') is None else \
+            np.asarray(o['fixed_covariance'])
     elif kind == 'vmfmm':
         lo = o.get('min_concentration', 1e-10)
         hi = o.get('max_concentration', 500)
@@ -334,7 +335,8 @@ def mstep_oracle(case, aff, q):
                 mean[k] = mu
                 cov[k] = c
             out['mean'] = mean
-            out['covariance'] = cov
+            out['covariance'] = cov if o.get('fixed_covariance') is None else \
+                np.asarray(o['fixed_covariance'])
         else:
             lo = o.get('min_concentration', 1e-10)
             hi = o.get('max_concentration', 500)
